@@ -32,8 +32,11 @@ impl DecOut {
 }
 
 pub fn decompose(m: &[Vec<f64>], tol: Option<f64>) -> DecOut {
+    decompose_dbg(m, tol, false)
+}
+pub fn decompose_dbg(m: &[Vec<f64>], tol: Option<f64>, debug: bool) -> DecOut {
     let a = make_matrix(m);
-    let s = Settings::new(tol, false, false).to_momtrop();
+    let s = Settings::new(tol, debug, false).to_momtrop();
     match catch_unwind(AssertUnwindSafe(|| a.decompose_for_tropical(&s))) {
         Ok(Ok(r)) => DecOut::Ok(r),
         Ok(Err(MatrixError::ZeroDet)) => DecOut::ZeroDet,
@@ -168,7 +171,7 @@ pub fn gen_matrix(rng: &mut impl Rng, kind: usize, n: usize) -> (Vec<Vec<f64>>, 
         for i in 0..n { for j in 0..i { s[i][j] = m[j][i]; } }
         s
     };
-    match kind % 10 {
+    match kind % 13 {
         0 => { // random SPD: A^T A + small diagonal
             let a: Vec<Vec<f64>> = (0..n).map(|_| (0..n).map(|_| rng.gen_range(-1.0..1.0)).collect()).collect();
             let mut m = rtr(&a); for i in 0..n { m[i][i] += 0.05; } (m, "random_spd")
@@ -212,6 +215,17 @@ pub fn gen_matrix(rng: &mut impl Rng, kind: usize, n: usize) -> (Vec<Vec<f64>>, 
             if n >= 2 { let a = rng.gen_range(0..n); let b = (a + 1) % n; for j in 0..n { m[b][j] = m[a][j]; } for i in 0..n { m[i][b] = m[i][a]; } m[b][b] = m[a][a]; m[a][b] = m[a][a]; m[b][a] = m[a][a]; }
             (m, "semidefinite")
         }
+        10 => { // tridiagonal / banded SPD with exact zeros (no fill-in)
+            let band = 1 + (kind / 13) % 2;
+            (sym(&mut |i, j| if i == j { 2.0 + (i as f64) * 0.25 } else if j - i <= band { -0.75 / (j - i) as f64 } else { 0.0 }), "banded")
+        }
+        11 => { // arrow / star pattern: zeros between the spokes, fill-in in the factor
+            let hub = if (kind / 13) % 2 == 0 { 0 } else { n - 1 };
+            (sym(&mut |i, j| if i == j { 4.0 + i as f64 } else if i == hub || j == hub { 1.0 } else { 0.0 }), "arrow")
+        }
+        12 => { // block diagonal with a coupling to an earlier index
+            (sym(&mut |i, j| if i == j { 3.0 } else if i == 0 && j >= 1 { 0.5 } else if (i + j) % 3 == 0 { 0.0 } else if j == i + 2 { 0.25 } else { 0.0 }), "sparse_mixed")
+        }
         _ => { // ill-conditioned SPD: eigenvalue spread
             let a: Vec<Vec<f64>> = (0..n).map(|_| (0..n).map(|_| rng.gen_range(-1.0..1.0)).collect()).collect();
             let mut m = rtr(&a); let eps = 10f64.powf(rng.gen_range(-9.0..-2.0)); for i in 0..n { m[i][i] += eps; } (m, "ill_conditioned")
@@ -229,7 +243,14 @@ pub fn record(seed: u64, count: usize, trace_path: &str) -> Summary {
     for it in 0..count {
         let n = 1 + (it / 10) % 8;
         let (m, kind) = gen_matrix(&mut rng, it, n);
-        let tol = tols[rng.gen_range(0..tols.len())];
+        let mut tol = tols[rng.gen_range(0..tols.len())];
+        if it % 3 == 0 {
+            // a tolerance placed right next to the residual the documented L_{2,1} formula gives for this matrix
+            if let DecOut::Ok(r) = decompose(&m, None) {
+                let e = l21_err(&mat_to_vv(&r.inverse), &m);
+                if e.is_finite() && e > 0.0 { tol = Some(e * [0.5, 0.7, 0.8, 0.9, 0.95, 0.99, 1.01, 1.05, 1.5][rng.gen_range(0..9)]); sm.count("adaptive_tolerance"); }
+            }
+        }
         let ev = dec_event(&m, tol, kind, it, &mut sm);
         if sm.samples.len() < 3 { sm.sample(ev.clone()); }
         writeln!(f, "{}", ev).unwrap();
@@ -256,8 +277,13 @@ pub fn replay_dec(lines: &[Value], trace_path: &str) -> Summary {
 fn dec_event(m: &[Vec<f64>], tol: Option<f64>, kind: &str, it: usize, sm: &mut Summary) -> Value {
     let n = m.len();
     {
-        // f64 run
+        // f64 run, and the same call with print_debug_info on: same outcome, same bits (C17)
         let out = decompose(m, tol);
+        let out_dbg = decompose_dbg(m, tol, true);
+        let dbg_same = out.name() == out_dbg.name() && match (&out, &out_dbg) {
+            (DecOut::Ok(a), DecOut::Ok(b)) => a.determinant.to_bits() == b.determinant.to_bits()
+                && mat_to_vv(&a.inverse).iter().flatten().zip(mat_to_vv(&b.inverse).iter().flatten()).all(|(x, y)| x.to_bits() == y.to_bits()),
+            _ => true };
         // Tr run: value of det_q at the `== zero` comparison (class of the pivot product)
         tr::reset();
         let mut a = SquareMatrix::new_zeros_from_num(&Tr::leaf(3, 0, 1.0), n);
@@ -276,7 +302,7 @@ fn dec_event(m: &[Vec<f64>], tol: Option<f64>, kind: &str, it: usize, sm: &mut S
         let spd = finite && is_spd_exact(m);
         let exact = if spd { exact_inv_det(m) } else { None };
         let mut ev = json!({"ev": "Dec", "it": it, "kind": kind, "n": n, "result": out.name(), "tr_result": tr_name, "dq": dqc,
-                            "tolc": if tol.is_some() { "some" } else { "none" }, "narrow": narrow, "spd": false, "condok": false,
+                            "tolc": if tol.is_some() { "some" } else { "none" }, "narrow": narrow, "dbg_same": dbg_same, "spd": false, "condok": false,
                             "det": "na", "err": "na", "nan": false, "acc_det": true, "acc_inv": true, "acc_qtq": true, "acc_qtiq": true, "tri": true, "posdiag": true,
                             "m": m.iter().map(|r| r.iter().map(|v| hexf(*v)).collect::<Vec<_>>()).collect::<Vec<_>>(),
                             "tol": tol.map(hexf).unwrap_or_else(|| "none".to_string())});
